@@ -923,6 +923,136 @@ fn judge_replay(o: &mut Outcome, seed: u64, r: &ReplayOut) {
     }
 }
 
+// ---------------------------------------------------------------------------
+// A policy that retries on the SAME node after a broken connection: the retry must use a live connection
+// ---------------------------------------------------------------------------
+
+#[derive(Debug)]
+struct SameTargetOnBroken;
+struct SameTargetSession(u32);
+impl scylla::policies::retry::RetryPolicy for SameTargetOnBroken {
+    fn new_session(&self) -> Box<dyn scylla::policies::retry::RetrySession> {
+        Box::new(SameTargetSession(0))
+    }
+}
+impl scylla::policies::retry::RetrySession for SameTargetSession {
+    fn decide_should_retry(&mut self, info: scylla::policies::retry::RequestInfo) -> scylla::policies::retry::RetryDecision {
+        use scylla::policies::retry::RetryDecision;
+        if matches!(info.error, scylla::errors::RequestAttemptError::BrokenConnectionError(_)) && self.0 < 150 {
+            self.0 += 1;
+            // (a short breath, so that the pool has the time to notice that the connection is gone)
+            std::thread::sleep(Duration::from_millis(3));
+            RetryDecision::RetrySameTarget(None)
+        } else {
+            RetryDecision::DontRetry
+        }
+    }
+    fn reset(&mut self) {
+        self.0 = 0;
+    }
+}
+
+struct SameTargetOut {
+    error: Option<String>,
+    how: &'static str,
+    ops: Vec<(u64, bool, Result<Option<EchoOutcome>, String>)>, // (id, was in flight on the dying connection, outcome)
+    violations: Vec<String>,
+}
+
+async fn run_same_target_retry(seed: u64) -> SameTargetOut {
+    let mut rng = Rng::new(seed, 53);
+    let how = *rng.pick(&["fin", "rst", "garbage"]);
+    let mut out = SameTargetOut { error: None, how, ops: vec![], violations: vec![] };
+    let echo = Echo::new(EchoMode::Hold);
+    let cluster = MockCluster::start(single_node_spec(), echo.clone()).await;
+    let profile = ExecutionProfile::builder().request_timeout(None).retry_policy(Arc::new(SameTargetOnBroken)).build();
+    let session = match connect(&cluster, |b| b.pool_size(PoolSize::PerHost(NonZeroUsize::new(2).unwrap())).default_execution_profile_handle(profile.into_handle())).await {
+        Ok(s) => Arc::new(s),
+        Err(e) => {
+            out.error = Some(e);
+            cluster.shutdown();
+            return out;
+        }
+    };
+    let pool_conns = |c: &MockCluster| c.established(0).into_iter().filter(|x| !x.registered.load(std::sync::atomic::Ordering::SeqCst)).collect::<Vec<_>>();
+    {
+        let c = cluster.clone();
+        if !cluster.wait_until(Duration::from_secs(15), move || pool_conns(&c).len() >= 2).await {
+            out.error = Some("pool did not reach 2 connections".into());
+            cluster.shutdown();
+            return out;
+        }
+    }
+    settle(cluster.log(), Duration::from_millis(100), Duration::from_secs(5), || false).await;
+    let n = rng.usize(2, 8);
+    let mut handles = Vec::new();
+    for _ in 0..n {
+        let id = next_op();
+        let s = session.clone();
+        handles.push((id, tokio::spawn(async move { tokio::time::timeout(Duration::from_secs(20), echo_op(s, None, id, true)).await.ok() })));
+    }
+    {
+        let e2 = echo.clone();
+        settle(cluster.log(), Duration::from_millis(60), Duration::from_secs(10), move || e2.held_count() >= n).await;
+    }
+    let held = echo.take_held();
+    let Some(victim) = held.first().map(|(_, rq)| rq.conn.clone()) else {
+        out.error = Some("no request reached the node".into());
+        cluster.shutdown();
+        return out;
+    };
+    let on_victim: std::collections::HashSet<u64> = held.iter().filter(|(_, rq)| rq.conn.id == victim.id).map(|(id, _)| *id).collect();
+    echo.set_mode(EchoMode::Immediate);
+    // the pool cannot replace the connection quickly: the retries have only the remaining one to go to
+    cluster.node(0).handshake_delay_ms.store(600, std::sync::atomic::Ordering::SeqCst);
+    match how {
+        "fin" => victim.close(CloseHow::Fin),
+        "rst" => victim.close(CloseHow::Rst),
+        _ => {
+            victim.send_raw(vec![0x00, 0x01, 0x02, 0x03, 0x04, 0x05, 0x06, 0x07, 0x08, 0x09]);
+            tokio::time::sleep(Duration::from_millis(3)).await;
+            victim.close(CloseHow::Fin);
+        }
+    }
+    for (id, rq) in held.iter().filter(|(_, rq)| rq.conn.id != victim.id) {
+        Echo::answer(*id, rq);
+    }
+    for (id, h) in handles {
+        out.ops.push((id, on_victim.contains(&id), h.await.map_err(|e| format!("{e}"))));
+    }
+    out.violations = cluster.log().violations();
+    drop(session);
+    cluster.shutdown();
+    out
+}
+
+fn judge_same_target(o: &mut Outcome, seed: u64, r: &SameTargetOut) {
+    if let Some(e) = &r.error {
+        o.inconclusive(format!("same-target-retry case could not run: {e}"));
+        return;
+    }
+    let replay = json!({"same_target_retry_seed": seed, "how": r.how, "ops": r.ops.iter().map(|(id, v, oc)| format!("{id} on the dying connection: {v}: {oc:?}").chars().take(200).collect::<String>()).collect::<Vec<_>>()});
+    o.case(fw::hash64(format!("same:{seed}").as_bytes()), true);
+    for v in &r.violations {
+        o.node_violation("c10", v, replay.clone());
+    }
+    for (id, on_victim, oc) in &r.ops {
+        match oc {
+            Err(p) => o.violation("c10:same-target:request-panicked", format!("request {id}: {p}"), replay.clone()),
+            Ok(None) => o.violation("c10:same-target:request-hangs", format!("request {id} did not return within 20 s"), replay.clone()),
+            Ok(Some(EchoOutcome::Ok(got))) if got != id => o.violation("c10:same-target:foreign-response", format!("request {id} was handed the response of request {got}"), replay.clone()),
+            Ok(Some(EchoOutcome::Garbled(g))) => o.violation("c10:same-target:garbled-response", format!("request {id}: {g}"), replay.clone()),
+            Ok(Some(EchoOutcome::Err(e))) if *on_victim => o.violation(
+                "c10:same-target:retry-did-not-reach-a-live-connection",
+                format!("idempotent request {id} was in flight on the connection that died ({}); the retry policy said RetrySameTarget (up to 150 times, 3 ms apart) and the node kept another healthy connection, yet the request failed: {e}", r.how),
+                replay.clone(),
+            ),
+            Ok(Some(EchoOutcome::Ok(_))) if *on_victim => o.class("same-target:retried-through-the-remaining-connection"),
+            _ => {}
+        }
+    }
+}
+
 pub fn run(ctx: &Ctx) -> Outcome {
     let mut out = Outcome::new();
     let rt = runtime(ctx.workers.min(8));
@@ -1038,6 +1168,30 @@ pub fn run(ctx: &Ctx) -> Outcome {
                 break;
             }
         }
+        let n3 = ctx.vol(16, 300);
+        let seeds3: Vec<u64> = (0..n3).map(|i| ctx.seed.wrapping_mul(2750159).wrapping_add(i)).collect();
+        for chunk in seeds3.chunks(6) {
+            let res: Vec<(u64, SameTargetOut)> = rt.block_on(async {
+                let mut js = Vec::new();
+                for s in chunk.iter().copied() {
+                    js.push(tokio::spawn(async move { (s, run_same_target_retry(s).await) }));
+                }
+                let mut v = Vec::new();
+                for j in js {
+                    if let Ok(x) = j.await {
+                        v.push(x);
+                    }
+                }
+                v
+            });
+            for (s, r) in &res {
+                judge_same_target(&mut out, *s, r);
+            }
+            if fw::stop_early(&mut out) {
+                break;
+            }
+        }
+        out.require_class("same-target:retried-through-the-remaining-connection");
         for c in ["two-nodes:non-idempotent-not-replayed", "two-nodes:idempotent-retried-elsewhere"] {
             out.require_class(c);
         }
